@@ -139,6 +139,13 @@ func (r *Reader) Read(buf []byte) (n int, err error) {
 }
 
 func (r *Reader) decodeScanLine() {
+	if r.EncodedByteAlign {
+		// every encoded line starts on a byte boundary: skip the fill bits
+		// (whole bytes are read, so the bits left in the buffer tell the
+		// position within the current byte)
+		r.consumeBits(r.validBits % 8)
+	}
+
 	if r.K < 0 {
 		r.decodeG4ScanLine()
 	} else if r.K == 0 {
